@@ -1393,6 +1393,7 @@ class Context:
         root = shell(value)
         if root is None or isinstance(value, (bool, int, float, str)):
             return leaf(value)
+        converted = {id(value): root}  # shared and cyclic structure is preserved
         work = [(value, root)]
         while work:
             src, dst = work.pop()
@@ -1404,7 +1405,10 @@ class Context:
                 child = shell(item)
                 if child is None:
                     child = leaf(item)
+                elif id(item) in converted:
+                    child = converted[id(item)]
                 else:
+                    converted[id(item)] = child
                     work.append((item, child))
                 if isinstance(dst, list):
                     dst.append(child)
@@ -1440,25 +1444,24 @@ class Context:
         root = shell(value)
         if root is None:
             return leaf(value)
+        converted = {id(value): root}  # shared and cyclic structure is preserved
         work = [(value, root)]
         while work:
             src, dst = work.pop()
-            if isinstance(src, list):
-                for item in src:
-                    child = shell(item)
-                    if child is None:
-                        dst.push(leaf(item))
-                    else:
-                        dst.push(child)
-                        work.append((item, child))
-            else:
-                for k, item in src.items():
-                    child = shell(item)
-                    if child is None:
-                        dst.set(str(k), leaf(item))
-                    else:
-                        dst.set(str(k), child)
-                        work.append((item, child))
+            entries = enumerate(src) if isinstance(src, list) else src.items()
+            for k, item in entries:
+                child = shell(item)
+                if child is None:
+                    child = leaf(item)
+                elif id(item) in converted:
+                    child = converted[id(item)]
+                else:
+                    converted[id(item)] = child
+                    work.append((item, child))
+                if isinstance(src, list):
+                    dst.push(child)
+                else:
+                    dst.set(str(k), child)
         return root
 
     def _wrap_host_function(self, fn: Any) -> Any:
